@@ -483,6 +483,7 @@ def rspBytesOf : List String → Option Bytes
   | "WMC" :: a :: q :: _ => do pure (Spec.rspBytes (.writeMultipleCoils (← parseU16 a) (← parseU16 q)))
   | "WMR" :: a :: q :: _ => do pure (Spec.rspBytes (.writeMultipleRegisters (← parseU16 a) (← parseU16 q)))
   | "CUS" :: fc :: h :: _ => do pure (Spec.rspBytes (.custom (← fcByte fc) (← parseHex h)))
+  | "RES" :: x :: _ => do pure (Spec.rspBytes (.readExceptionStatus (← parseU8 x)))
   | "EXC" :: fc :: k :: _ => do
       let e ← excOfIdx (← k.toNat?)
       pure (Spec.excBytes (← fcByte fc) e.val)
